@@ -49,11 +49,21 @@ Theorem C08_unop_correct : forall F t op a s w,
 Proof. exact unop_correct. Qed.
 Print Assumptions C08_unop_correct.
 
-(* casts, full statement: the target's encoding of the source VALUE, for every
-   pair of integer-like types and every value *)
+(* casts, full statement: the target's encoding of the source VALUE, for every pair of
+   integer-like types and every value.  [v_cast_by_source F] names the variant of
+   cast_num the model mirrors: true = the repaired code (fix candidate
+   .cache/prompts/C08-1-fix.diff: extend by the SOURCE signedness), false = the code before it. *)
+Theorem C08_cast_full_fixed : forall F from to a s1 w1,
+  v_cast_by_source F = true ->
+  ty_sem from = Some (s1, w1) -> in_bits w1 a ->
+  forall r, spec_cast from to a = Some r -> val_bits (model_cast F from to a) = Some r.
+Proof. exact cast_int_full_fixed. Qed.
+Print Assumptions C08_cast_full_fixed.
+
+(* HISTORY (finding C08-1): the same statement about the unrepaired variant ... *)
 Definition C08_cast_full : Prop := cast_int_full.
 
-(* ... is FALSE of the code as it is: u16.(i8 -1) = 0x00ff instead of 0xffff *)
+(* ... is FALSE: u16.(i8 -1) = 0x00ff instead of 0xffff *)
 Theorem C08_cast_full_refuted : ~ C08_cast_full.
 Proof. exact cast_int_full_refuted. Qed.
 Print Assumptions C08_cast_full_refuted.
@@ -67,8 +77,9 @@ Theorem C08_cast_except_known : forall F from to a s1 w1,
 Proof. exact cast_int_except_known. Qed.
 Print Assumptions C08_cast_except_known.
 
-(* inside that class the code zero-extends: wrong exactly for negative values *)
+(* inside that class the unrepaired code zero-extends: wrong exactly for negative values *)
 Theorem C08_cast_known_class_exact : forall F from to a s1 w1,
+  v_cast_by_source F = false ->
   ty_sem from = Some (s1, w1) -> in_bits w1 a ->
   known_cast_class from to = Some 1%N ->
   forall r, spec_cast from to a = Some r ->
@@ -114,16 +125,16 @@ Proof. exact cast_float_to_int_witness. Qed.
 Print Assumptions C08_cast_float_to_int_witness.
 
 (* int -> float outside class 2 (integer wider than the float), all values *)
-Theorem C08_int_to_float_except_known : forall from to a s w,
+Theorem C08_int_to_float_except_known : forall fx from to a s w,
   ty_sem from = Some (s, w) -> in_bits w a -> known_class_any from to = None ->
-  forall r, spec_int_to_float from to a = Some r -> val_bits (m_cast from to a) = Some r.
+  forall r, spec_int_to_float from to a = Some r -> val_bits (m_cast_v fx from to a) = Some r.
 Proof. exact int_to_float_except_known. Qed.
 Print Assumptions C08_int_to_float_except_known.
 
 (* float -> int outside class 3 (integer wider than the float), all bit patterns *)
-Theorem C08_float_to_int_except_known : forall from to x,
+Theorem C08_float_to_int_except_known : forall fx from to x,
   known_class_any from to = None ->
-  forall r, spec_float_to_int from to x = Some r -> val_bits (m_cast from to x) = Some r.
+  forall r, spec_float_to_int from to x = Some r -> val_bits (m_cast_v fx from to x) = Some r.
 Proof. exact float_to_int_except_known. Qed.
 Print Assumptions C08_float_to_int_except_known.
 
